@@ -59,6 +59,10 @@ func RedirectTable() map[string]string {
 	in.Redirect["gopkg.in/yaml.v2.Marshal"] = "vstubYAMLMarshal"
 	in.Redirect[pm+".cachedDumpFile"] = "vstubCachedDumpFile"
 	in.Redirect["io.Copy"] = "vstubCopy"
+	in.Redirect["os.ReadFile"] = "vstubReadFile"
+	in.Redirect["os.WriteFile"] = "vstubWriteFile"
+	in.Redirect["(*os/exec.Cmd).Output"] = "vstubCmdOutput"
+	in.Redirect["(*os/exec.Cmd).CombinedOutput"] = "vstubCmdOutput"
 	in.Redirect["crypto/sha256.New"] = "vstubSha256New"
 	in.Redirect["os.Create"] = "vstubCreate"
 	in.Redirect["os.CreateTemp"] = "vstubCreateTemp"
